@@ -75,6 +75,19 @@ def spelling_programs():
              "fields": [{"name": "c", "ty": N(C["name"]), "attrs": {}}, {"name": "b", "ty": N(B["name"]), "attrs": {}}]}
         items = [A, B, C, O, R]
         progs.append({"items": items, "probes": [{"ty": N(it["name"]), "values": []} for it in items]})
+    # the SAME FILE NAME in different directories (`index.ts`, `v2/index.ts`, `v2/deep/index.ts`, `w2/index.ts`), referring to each other upwards,
+    # downwards and sideways: only the directory part of the specifier tells them apart, and none of them is "the same file"
+    # (seeded change C03-19: a test that accepted any `../` prefix before the stem dropped the import of `../index`)
+    def st(name, to, fields):
+        return {"kind": "struct", "name": name, "shape": "named", "attrs": {"export_to": to}, "generics": [],
+                "fields": [{"name": n, "ty": t, "attrs": {}} for n, t in fields] or [{"name": "x", "ty": P("u8"), "attrs": {}}]}
+    items = [st("SsBase", "index.ts", []),
+             st("SsExt", "v2/index.ts", [("base", N("SsBase"))]),
+             st("SsDeep", "v2/deep/index.ts", [("e", N("SsExt")), ("b", N("SsBase"))]),
+             st("SsSib", "w2/index.ts", [("e", N("SsExt")), ("d", OPT(N("SsDeep")))]),
+             st("SsTop", "index.ts", [("s", N("SsSib")), ("b", N("SsBase"))]),
+             st("SsOther", "v2/other.ts", [("e", N("SsExt")), ("t", VEC(N("SsTop")))])]
+    progs.append({"items": items, "probes": [{"ty": N(it["name"]), "values": []} for it in items]})
     return progs
 
 
@@ -124,7 +137,7 @@ def check_spellings(ctx, c):
             if probs:
                 ctx.violation("an exported directory is not closed: " + "; ".join(probs[:3]), {"items": prog["items"], "entry": how}, {"files": {k: v[:800] for k, v in tree.items()}})
     ctx.stream("one file under several spellings", n, len(progs), "three types whose export_to attributes spell the same file differently (`..`, `./`, `.` segments), referring to each other, to a type in its own file, "
-               "and referred to from a nested directory; export_all_to and TS_RS_EXPORT_DIR; closure oracle (in particular: no file imports from itself); model = implementation on export_to_string", [], {})
+               "and referred to from a nested directory; one program with the same file name `index.ts` in four directories referring to each other upwards, downwards and sideways; export_all_to and TS_RS_EXPORT_DIR; closure oracle (in particular: no file imports from itself); model = implementation on export_to_string", [], {})
     return n
 
 
